@@ -10,6 +10,8 @@
 (*            macro [op, ents]   (a props!/evt!/emit! call site)           *)
 (*            none               (Option::None)                            *)
 (*   unary    opt (Some) | ref | box | arc | erased | dedup | asmap [op,t] *)
+(*            span | metric: the property view of a Span / Metric event    *)
+(*            over the user properties t                            [op,t] *)
 (*   binary   and [op, l, r]                                               *)
 (* kvs is a sequence of [k, v]; for the maps it is the insertion order.    *)
 (* Every stored pair of a tree carries a distinct value, so "which of two  *)
@@ -36,7 +38,9 @@ CONSTANTS
     NModes,     \* exhaustive mode: number of seed sets
     Seeds(_),   \* the seeds of a mode
     Rights(_),  \* the right-hand sides joined to every seed of a mode
-    Extend(_),  \* whether the seeds of a mode are also wrapped in every unary node
+    Wraps(_),   \* the unary nodes every seed of a mode is also wrapped in
+    SpanPrefix,     \* what a Span / Metric view yields before the user properties:
+    MetricPrefix,   \* sequences of [k, v] in the order of the code
     GrowLeaves(_),  \* leaves (with value base) for the growing mode (simulation)
     MaxGrow,    \* bound on the number of growth steps
     MacroGet,   \* "bsearch": lookup as found; "bsearch_scan": repaired lookup
@@ -156,6 +160,10 @@ Segs(t) ==
       [] t.op \in {"hash", "ctxt", "extent", "spanctxt"} -> <<[ord |-> FALSE, kvs |-> SortKVs(t.kvs)]>>
       [] t.op = "macro" -> <<[ord |-> FALSE, kvs |-> SortKVs(MacroPresent(t.ents))]>>
       [] t.op \in Transparent -> Segs(t.t)
+      \* the well-known properties (in any order), then the user properties: a user
+      \* property that repeats a well-known key comes later and so never wins
+      [] t.op = "span" -> <<[ord |-> FALSE, kvs |-> SortKVs(SpanPrefix)]>> \o Segs(t.t)
+      [] t.op = "metric" -> <<[ord |-> FALSE, kvs |-> SortKVs(MetricPrefix)]>> \o Segs(t.t)
       [] t.op = "and" -> Segs(t.l) \o Segs(t.r)
       [] t.op = "dedup" ->
             <<[ord |-> FALSE,
@@ -200,6 +208,11 @@ FE(t, c, n) ==
       [] t.op \in {"btree", "hash", "ctxt"} -> Loop(SortKVs(t.kvs), 1, c, n)
       [] t.op = "macro" -> Loop(MacroEnumB(t.ents), 1, c, n)
       [] t.op \in Transparent -> FE(t.t, c, n)
+      [] t.op \in {"span", "metric"} ->       \* for_each(KEY, ..)?; ..; self.props.for_each(for_each)
+            LET a == Loop(IF t.op = "span" THEN SpanPrefix ELSE MetricPrefix, 1, c, n)
+            IN IF a.brk THEN a
+               ELSE LET b == FE(t.t, a.c, n)
+                    IN [vis |-> a.vis \o b.vis, c |-> b.c, brk |-> b.brk]
       [] t.op = "and" ->
             LET a == FE(t.l, c, n)
             IN IF a.brk THEN a
@@ -219,7 +232,8 @@ GetB(t, k) ==
       [] t.op = "macro" -> MacroGetB(t.ents, k)
       [] t.op \in {"ref", "asmap", "erased", "dedup"} -> GetB(t.t, k)
       [] t.op = "and" -> IF GetB(t.l, k) # None THEN GetB(t.l, k) ELSE GetB(t.r, k)
-      [] OTHER -> DefaultGet(t, k)       \* pair, arr, slice, none, opt, box, arc, extent, spanctxt
+      [] OTHER -> DefaultGet(t, k)       \* pair, arr, slice, none, opt, box, arc, extent, spanctxt,
+                                         \* span, metric
 
 -----------------------------------------------------------------------------
 (* exhaustive mode.  TLC computes (and checks) initial states on one thread and
@@ -240,7 +254,7 @@ Check ==
     /\ ~done
     /\ done' = TRUE
     /\ \/ tree' = tree
-       \/ \E o \in Unary : Extend(np) /\ tree' = [op |-> o, t |-> tree]
+       \/ \E o \in Wraps(np) : tree' = [op |-> o, t |-> tree]
        \/ \E r \in Rights(np) : tree' = [op |-> "and", l |-> tree, r |-> r]
     /\ UNCHANGED <<stk, np>>
 
